@@ -22,6 +22,8 @@ class TableInfo:
     predictor_info: dict = None
     join_condition = None
     index: int = None
+    # the name was written with its integration (a qualified name never refers to a CTE)
+    is_qualified: bool = False
 
 class PlanJoin:
 
@@ -135,9 +137,11 @@ class PlanJoinTablesQuery:
 
         # try to use default namespace
         integration = self.planner.default_namespace
+        is_qualified = False
         if len(table.parts) > 0:
             if table.parts[0].lower() in self.planner.databases:
                 integration = table.parts.pop(0).lower()
+                is_qualified = True
             else:
                 integration = self.planner.default_namespace
 
@@ -146,7 +150,7 @@ class PlanJoinTablesQuery:
 
         sub_select = getattr(table, 'sub_select', None)
 
-        return TableInfo(integration, table, aliases, conditions=[], sub_select=sub_select)
+        return TableInfo(integration, table, aliases, conditions=[], sub_select=sub_select, is_qualified=is_qualified)
 
     def get_table_for_column(self, column: Identifier):
         if not isinstance(column, Identifier):
@@ -425,7 +429,7 @@ class PlanJoinTablesQuery:
             else:
                 query2.where = cond
 
-        step = self.planner.get_integration_select_step(query2)
+        step = self.planner.get_integration_select_step(query2, allow_cte=not item.is_qualified)
         self.tables_fetch_step[item.index] = step
 
         self.add_plan_step(step)
